@@ -21,7 +21,6 @@ echo "== demo WITHOUT the change (must pass)"
 tail -3 $W/demo_without.log
 git apply $S/out/patch.diff || { echo "patch.diff does not apply"; exit 2; }
 echo "== existing suite WITH the change (must pass)"
-git stash -q -- $(git diff --name-only --diff-filter=A 2>/dev/null) 2>/dev/null
 cargo nextest run --workspace --no-fail-fast --offline > $W/suite.log 2>&1; r2=$?
 grep -E "Summary|FAIL" $W/suite.log | grep -v "SIGTERM" | head -5
 echo "== demo WITH the change (must fail)"
